@@ -59,6 +59,8 @@ class Namer:
             return base + '-d'
         if f == 'unicode':
             return base + self.rng.choice(['é', 'ж', '名', 'ß'])
+        if f == 'bslash':   # names are literal: a backslash is an ordinary character of a quoted name
+            return base + self.rng.choice(['\\', '\\n', 'a\\b', '\\\\x'])
         if f == 'punct':
             return base + self.rng.choice(["'", '#', '/', '!', '@', '$', '%', '&', '*', '+', '=', '?', '~', '|', ';', ':', '<', '>'])
         if f == 'hostile':
@@ -66,7 +68,7 @@ class Namer:
         raise ValueError(f)
 
 
-CORE_FLAVOURS = ('bare', 'bare', 'bare', 'upper', 'digit', 'space', 'dash', 'unicode')
+CORE_FLAVOURS = ('bare', 'bare', 'bare', 'bare', 'upper', 'upper', 'digit', 'digit', 'space', 'space', 'dash', 'dash', 'unicode', 'unicode', 'bslash')
 
 PLAIN_WORDS = ['alpha', 'beta', 'gamma', 'delta', 'user id', 'to include unit number', 'x', 'Total', 'naïve', '数据']
 RICH_BITS = ["it's", 'say "hi"', 'a\\b', 'back`tick', '{x}', '{0}', '[y]', '# hash', '// not a comment',
@@ -172,6 +174,8 @@ def random_doc(rng, size='small', text_profile='plain', flavours=CORE_FLAVOURS, 
     for _ in range(rng.randint(1, 2 + big)):
         t = am.Table(rng.choice(schemas), nm('t'))
         t.alias = maybe(0.35, lambda: nm('al'))
+        if rng.random() < 0.04:
+            t.alias = t.name                      # an alias spelled like the table's own bare name is legal
         t.note = maybe(0.4, lambda: tx.note('tn'))
         t.header_color = maybe(0.3, lambda: hexcolor(rng))
         t.comment = maybe(0.3 if comments else 0, lambda: tx.comment())
@@ -687,6 +691,9 @@ def same_bare_names(doc, rng):
             t.schema = f'sb{len(used)}_' + (t.schema if t.schema != 'public' else 'x')
         used.add(t.schema)
         t.name = base.name
+    for t in doc.tables:
+        if t.alias is not None and t.alias == base.name:
+            t.alias = None      # an alias spelled like the shared bare name would make `name.col` ambiguous
     # the join table of a <> reference is named <left>_<right> in the left schema: keep those names unique
     seen = set()
     for r in doc.refs:
